@@ -701,7 +701,11 @@ impl UnifiedCommandExecutor {
             }
             
             StringCommand::DecrBy { key, decrement } => {
-                let result = self.storage.incr_by(db, key, -(decrement))?;
+                let increment = match decrement.checked_neg() {
+                    Some(n) => n,
+                    None => return Ok(RespFrame::error("ERR decrement would overflow")),
+                };
+                let result = self.storage.incr_by(db, key, increment)?;
                 Ok(RespFrame::Integer(result))
             }
             
